@@ -17,6 +17,7 @@ of inserts completed before / begun before the observation, on the traces (Pytho
 untraced free-running stress runs (evaluated in the harness)."""
 import json
 import os
+import re
 import time
 
 import vlib
@@ -273,6 +274,51 @@ def life_reference(line):
 
 
 # ------------------------------------------------------------------------------- trace oracle
+def iso_reference(body):
+    """sorted-list reference for a one-thread program with signed keys: positions are an index into the sorted
+    keys, -1 = the head (before the first), len = null (after the last).  As in skipfree: seek_to_last parks on
+    null (prev from there is the last entry), next on null stays, prev on the head stays, next from the head is
+    the first entry."""
+    keys, pos, outs = [], None, []
+    pos = 0           # a fresh iterator sits on null (after the last): prev() from there is the last entry
+
+    def show():
+        return "K%d" % keys[pos] if 0 <= pos < len(keys) else "K-"
+    for t in [x.strip() for x in body.split(",") if x.strip()]:
+        if t[0] == "i":
+            k = int(t[1:])
+            cur = keys[pos] if 0 <= pos < len(keys) else None
+            at_null = pos >= len(keys) and pos != -1
+            keys.append(k)
+            keys.sort()
+            if cur is not None:
+                pos = keys.index(cur)
+            elif at_null:
+                pos = len(keys)
+            outs.append("I%d" % k)
+        elif t[0] == "c":
+            outs.append("B%d" % (1 if int(t[1:]) in keys else 0))
+        elif t[0] == "s":
+            k = int(t[1:])
+            pos = len([x for x in keys if x < k])
+            outs.append(show())
+        elif t == "F":
+            pos = 0
+            outs.append(show())
+        elif t == "L":
+            pos = len(keys)
+            outs.append(show())
+        elif t == "N":
+            if pos < len(keys):
+                pos += 1
+            outs.append(show())
+        elif t == "P":
+            if pos >= 0:
+                pos -= 1
+            outs.append(show())
+    return "%s = %s" % (",".join(outs), ",".join(str(k) for k in keys))
+
+
 def parse_record(line):
     f = [x.strip() for x in line.split("|")]
     if len(f) != 7 or f[0] != "R":
@@ -747,8 +793,52 @@ def run(chk):
             bad["prop"].append({"kind": "property-lifetime", "what": "iterator use after the nodes were freed / wrong position: got `%s` want `%s`" % (o[:300], want[:300]),
                                 "harness_line": ln})
 
+    # ---- sk-iso: one thread, signed keys.  The traced stages use u64 keys, all >= K::default(); the head
+    # sentinel holds K::default(), so code that compares against the head's key (or forgets that the head is
+    # not an entry) is only visible with keys that order BELOW the default.  The same program runs on
+    # SkipList<i64> and, shifted by 2^63, on SkipList<u64> (the instantiation the model's traces cover):
+    # the observations must be equal, and equal to a sorted-list reference cursor.
+    irng = vlib.Rng(chk.seed * 1000003 + 1717)
+    iso_lines = []
+    for k in range(400 if chk.tier == "quick" else 20000):
+        keys = list(range(-6, 7)) if k % 3 else [-(1 << 63), -(1 << 62), -5, -1, 0, 1, 7, (1 << 62), (1 << 63) - 1]
+        ins, ops = set(), []
+        for _ in range(irng.range(3, 30)):
+            c = irng.below(100)
+            if c < 22:
+                kk = irng.choice(keys)
+                if kk not in ins:
+                    ins.add(kk)
+                    ops.append("i%d" % kk)
+            elif c < 30:
+                ops.append("c%d" % irng.choice(keys))
+            elif c < 42:
+                ops.append("s%d" % irng.choice(keys))
+            elif c < 50:
+                ops.append("F")
+            elif c < 58:
+                ops.append("L")
+            elif c < 76:
+                ops.append("N")
+            else:
+                ops.append("P")
+        if k % 5 == 0:
+            ops += ["F"] + ["P"] * irng.range(1, 3) + ["N"] * irng.range(1, 3)     # off the front, again, and back
+        iso_lines.append("sk-iso %d - | %s" % (irng.choice([1, 2, 4, 12]), ",".join(ops)))
+    res_iso = run_harness(hx, iso_lines, chk.work, "iso")
+    for ln, outl in res_iso:
+        o = outl[0]
+        stats["iso_cases"] = stats.get("iso_cases", 0) + 1
+        m = re.match(r"ISO i64\[ (.*) \] u64\[ (.*) \]$", o)
+        want = iso_reference(ln.split("|", 1)[1])
+        if o.startswith("NOT-RUN"):
+            stats["not_run"] += 1
+        elif not m or m.group(1) != m.group(2) or m.group(1) != want:
+            bad["prop"].append({"kind": "property-key-order", "what": "one thread, signed keys: SkipList<i64> gives `%s`, the same program shifted onto u64 gives `%s`, the sorted-list reference `%s`" % (
+                (m.group(1) if m else o)[:400], (m.group(2) if m else "")[:400], want[:400]), "harness_line": ln})
+
     tm["untraced_stages_s"] = round(time.time() - t0, 1)
-    evaluations = n1 + n2 + stats["stress_runs"] + stats["life_cases"] + stats["hammer_rounds"] + stats["own_runs"]
+    evaluations = n1 + n2 + stats.get("iso_cases", 0) + stats["stress_runs"] + stats["life_cases"] + stats["hammer_rounds"] + stats["own_runs"]
     chk.coverage.update({
         "evaluations": evaluations,
         "distinct_nontrivial": len(nt1) + len(nt2),
